@@ -704,6 +704,22 @@ func (t *treadlink) handle(cs *connState) message {
 	return &rreadlink{target}
 }
 
+// maxReplyPayload returns the number of payload bytes an Rread or Rreaddir
+// may carry so that the whole reply (header, count and payload) fits in the
+// negotiated message size.
+func (cs *connState) maxReplyPayload() uint32 {
+	msize := atomic.LoadUint32(&cs.messageSize)
+	if msize == 0 {
+		// Default or not yet negotiated.
+		msize = maximumLength
+	}
+	overhead := headerLength + (*rread)(nil).FixedSize()
+	if msize < overhead {
+		return 0
+	}
+	return msize - overhead
+}
+
 // handle implements handler.handle.
 func (t *tread) handle(cs *connState) message {
 	// Lookup the fid.
@@ -713,9 +729,11 @@ func (t *tread) handle(cs *connState) message {
 	}
 	defer ref.DecRef()
 
-	// Constrain the size of the read buffer.
-	if int(t.Count) > int(maximumLength) {
-		return newErr(linux.ENOBUFS)
+	// Constrain the size of the read: the reply has to fit in the
+	// negotiated message size, so shorten the read if necessary.
+	count := t.Count
+	if max := cs.maxReplyPayload(); count > max {
+		count = max
 	}
 
 	var n int
@@ -735,7 +753,7 @@ func (t *tread) handle(cs *connState) message {
 				return linux.EPERM
 			}
 
-			n, err = ref.file.ReadAt(dataBuf[:t.Count], int64(t.Offset))
+			n, err = ref.file.ReadAt(dataBuf[:count], int64(t.Offset))
 			return err
 
 		case xattrWalk:
@@ -758,7 +776,7 @@ func (t *tread) handle(cs *connState) message {
 				return linux.EINVAL
 			}
 
-			n = copy(dataBuf[:t.Count], ref.pendingXattr.buf[t.Offset:])
+			n = copy(dataBuf[:count], ref.pendingXattr.buf[t.Offset:])
 			return nil
 		default:
 			return linux.EINVAL
@@ -1063,6 +1081,12 @@ func (t *treaddir) handle(cs *connState) message {
 	}
 	defer ref.DecRef()
 
+	// The reply has to fit in the negotiated message size.
+	count := t.Count
+	if max := cs.maxReplyPayload(); count > max {
+		count = max
+	}
+
 	var entries []Dirent
 	if err := ref.safelyRead(func() (err error) {
 		// Don't allow reading deleted directories.
@@ -1076,7 +1100,7 @@ func (t *treaddir) handle(cs *connState) message {
 		}
 
 		// Read the entries.
-		entries, err = ref.file.Readdir(t.Offset, t.Count)
+		entries, err = ref.file.Readdir(t.Offset, count)
 		if err != nil && !errors.Is(err, io.EOF) {
 			return err
 		}
@@ -1085,7 +1109,7 @@ func (t *treaddir) handle(cs *connState) message {
 		return newErr(err)
 	}
 
-	return &rreaddir{Count: t.Count, Entries: entries}
+	return &rreaddir{Count: count, Entries: entries}
 }
 
 // handle implements handler.handle.
